@@ -903,6 +903,12 @@ int clock_gettime(clockid_t clk, struct timespec *ts) {
       }
     }
   }
+  if (!g_world) {
+    /* engine B: the simulated clock also leaps (a suspended process, a loaded machine, an NTP
+     * step): every read advances by the seeded delta and, one time in eight, by 1..120 s more */
+    uint64_t j = splitmix(&g_rand_state);
+    if ((j & 7) == 0) g_clock_jump += (int64_t)(1 + (j >> 8) % 120) * 1000000000LL;
+  }
   uint64_t s = g_seed;
   uint64_t base_s = 1000000ULL + splitmix(&s) % 100000ULL;
   uint64_t delta = 1000ULL + splitmix(&s) % 5000000ULL; /* ns per clock read */
